@@ -75,6 +75,13 @@ def run(chk):
         kind, V = gen.convex_set(rng, kinds=("ellipsoid", "lattice", "lattice", "prismatic", "prismatic", "flat", "needle", "creased", "chamfered", "bigprism", "biglattice"))
         if ishape % 6 == 0:
             kind, V = gen.convex_set(rng, kinds=("ellipsoid",))
+        elif ishape % 6 == 1:      # (kinds that must not depend on the draw: thin solids, near-flat oblique ridges, and small ones - any size)
+            kind, V = gen.convex_set(rng, kinds=("needle", "flat"))
+        elif ishape % 6 == 2:
+            kind, V = gen.convex_set(rng, kinds=("creased",))
+        elif ishape % 6 == 3:
+            kind, V = gen.convex_set(rng, kinds=("lattice", "prismatic"), allow_place=False)
+            V = V * 2.0 ** -int(rng.integers(15, 19)); kind += "*2^-k"
         if kind == "ellipsoid" and (ishape % 6 == 0 or rng.random() < 0.6):
             # far from the origin, by an offset that is NOT on a dyadic grid (all faces are triangles here, so rounding the sum cannot break
             # a planar face): lengths and vectors of edges are differences of vertices and must not lose the offset's digits
